@@ -443,11 +443,19 @@ def _merge_sparse_by_pair_files(
             'up_pair_idx',
             shape=(n_pairs+1,),
             dtype=up_pair_idx_dtype)
+        if n_up_indices > 0:
+            up_chunks = (min(1000000, n_up_indices),)
+        else:
+            up_chunks = None
+        if n_down_indices > 0:
+            down_chunks = (min(1000000, n_down_indices),)
+        else:
+            down_chunks = None
         dst_grp.create_dataset(
             'up_gene_idx',
             shape=(n_up_indices,),
             dtype=gene_idx_dtype,
-            chunks=(min(1000000, n_up_indices),))
+            chunks=up_chunks)
         dst_grp.create_dataset(
             'down_pair_idx',
             shape=(n_pairs+1,),
@@ -456,7 +464,7 @@ def _merge_sparse_by_pair_files(
             'down_gene_idx',
             shape=(n_down_indices,),
             dtype=gene_idx_dtype,
-            chunks=(min(1000000, n_down_indices),))
+            chunks=down_chunks)
 
         col0_values = list(tmp_path_dict.keys())
         col0_values.sort()
